@@ -67,6 +67,11 @@ def ge0_facts(atoms: t.List[t.Tuple[ast.expr, bool]]) -> t.List[t.Tuple[t.Dict[s
         elif op is ast.Eq:
             out.append(_sub(a, b))
             out.append(_sub(b, a))
+        elif op is ast.NotEq:
+            # a length is never negative: len(x) != 0  <=>  len(x) - 1 >= 0
+            for x, y in ((a, b), (b, a)):
+                if not y[0] and y[1] == 0 and len(x[0]) == 1 and x[1] == 0 and next(iter(x[0].items()))[1] == 1 and next(iter(x[0])).startswith("len("):
+                    out.append((dict(x[0]), -1))
     return out
 
 
